@@ -100,7 +100,7 @@ def run(ctx):
         for k in range(per_scen):
             pi = (si + k) % nprog
             r = ctx.rng("case", si * 1000 + k)
-            mix = k % 6 == 5     # every sixth instance of a scenario is followed by one or two other scenarios in the same process
+            mix = k % 3 == 2     # every third instance of a scenario is followed by one or two other scenarios in the same process
             cases = {}
             for size in ("stress", "small", "large"):
                 rc = ctx.rng("case-%s" % size, si * 1000 + k)
@@ -113,7 +113,11 @@ def run(ctx):
             r.shuffle(cc)
             for j, (be, gc, fl, af) in enumerate(cc[:ncfg]):
                 size = FLAGS[fl][1] or ("small" if af == "one" else "large")
-                for rep, permille in enumerate(perturb):
+                if fl == "notlab" and af == "one":
+                    size = "stress"       # a collection per TLAB-less allocation burst on one shared core: keep it tiny
+                for rep in range(len(perturb)):
+                    # the perturbation level rotates, so that every round of the job order (see below) holds all levels
+                    permille = perturb[(rep + j + inst) % len(perturb)]
                     rj = ctx.rng("run", (inst * 64 + j) * 8 + rep)
                     jobs.append({"order": (rep, j, inst), "prog": "tp%d" % pi, "scenario": name, "case": cases[size], "size": size, "be": be, "gc": gc,
                                  "fl": fl, "af": af, "aff": _affinity(af, rj, cpus), "perturb": "%d:%d" % (rj.randrange(1, 1 << 20), permille) if permille else None,
